@@ -268,7 +268,7 @@ class Endpoint:
     def acquire_event(self, index, src_sel, dst_sel, sport=0, dport=0, proto=0, peer=None, me=None, policy_dir=1,
                       raw_index=None):
         me = me or self.addrs[0]
-        peer = peer or (IP_B if me == IP_A else IP_A)
+        peer = peer or (self.world.ip_b if me == self.world.ip_a else self.world.ip_a)
         fam = real_socket.AF_INET if me.version == 4 else real_socket.AF_INET6
         sfam = real_socket.AF_INET if ip_address(src_sel).version == 4 else real_socket.AF_INET6
         acq = X.XfrmUserAcquire(
@@ -336,7 +336,19 @@ def snap_sa(s):
 
 # --------------------------------------------------------------------------- configurations
 
-RSA_PRIV = None
+RSA_KEYS = {}
+
+
+def rsa_pair(name):
+    """a PEM key pair per identity, generated once per process (1024 bit: speed; the algebra is OpenSSL's)"""
+    if name not in RSA_KEYS:
+        from cryptography.hazmat.primitives.asymmetric import rsa
+        from cryptography.hazmat.primitives import serialization
+        k = rsa.generate_private_key(public_exponent=65537, key_size=1024)
+        priv = k.private_bytes(serialization.Encoding.PEM, serialization.PrivateFormat.TraditionalOpenSSL, serialization.NoEncryption()).decode()
+        pub = k.public_key().public_bytes(serialization.Encoding.PEM, serialization.PublicFormat.SubjectPublicKeyInfo).decode()
+        RSA_KEYS[name] = (priv, pub)
+    return RSA_KEYS[name]
 
 
 def default_conf(a=IP_A, b=IP_B, **kw):
@@ -363,6 +375,9 @@ def default_conf(a=IP_A, b=IP_B, **kw):
         d = {'my_addr': str(me), 'peer_addr': str(peer), 'my_auth': {'id': my_id, 'psk': my_psk},
              'peer_auth': {'id': peer_id, 'psk': peer_psk}, 'lifetime': g('ike_lifetime', 900), 'dpd': g('dpd', 60),
              'protect': [p]}
+        if kw.get('rsa'):
+            d['my_auth'] = {'id': my_id, 'privkey': rsa_pair(my_id)[0]}
+            d['peer_auth'] = {'id': peer_id, 'pubkey': rsa_pair(peer_id)[1]}
         d.update(ike)
         return d
 
@@ -403,11 +418,12 @@ class World:
         self.capture = None
         self._saved = None
         self._install(capture_logs)
+        self.ip_a, self.ip_b = ip_address(kw.pop('ip_a', IP_A)), ip_address(kw.pop('ip_b', IP_B))
         if conf_a is None:
-            conf_a, conf_b = default_conf(**kw)
+            conf_a, conf_b = default_conf(a=self.ip_a, b=self.ip_b, **kw)
         try:
-            self.A = Endpoint(self, 'A', [IP_A], conf_a)
-            self.B = Endpoint(self, 'B', [IP_B], conf_b)
+            self.A = Endpoint(self, 'A', [self.ip_a], conf_a)
+            self.B = Endpoint(self, 'B', [self.ip_b], conf_b)
         except BaseException:
             self.close()
             raise
@@ -516,7 +532,7 @@ class World:
         return ep.step(datagram=dg)
 
     def inject(self, ep, data, src=None):
-        dg = Datagram(self.next_id, src or (IP_B if ep is self.A else IP_A), ep.addrs[0], data, 'X')
+        dg = Datagram(self.next_id, src or (self.ip_b if ep is self.A else self.ip_a), ep.addrs[0], data, 'X')
         self.next_id += 1
         return ep.step(datagram=dg)
 
@@ -539,7 +555,7 @@ class World:
         """ACQUIRE on `initiator` and lossless delivery until quiet; returns True when both are ESTABLISHED"""
         ini = initiator or self.A
         me = ini.addrs[0]
-        peer = IP_B if me == IP_A else IP_A
+        peer = self.ip_b if me == self.ip_a else self.ip_a
         prot = list(ini.configuration.ike_configurations.values())[0].protect[0]
         ev = ini.acquire_event(prot.index, str(me), str(peer), sport=sport,
                                dport=prot.peer_ts.get_port() if dport is None else dport, proto=int(prot.my_ts.ip_proto))
